@@ -117,11 +117,19 @@ def run_case(coro_fn, *args, **kwargs):
                 pending = [t for t in asyncio.all_tasks(loop) if not t.done()]
                 if not pending:
                     break
+                cyclic = False
                 for t in pending:
-                    t.cancel()
+                    try:
+                        t.cancel()
+                    except RecursionError:
+                        # tasks of the code under test that await each other in a cycle: Task.cancel() follows the chain of
+                        # awaited futures for ever. Nothing can be cleaned up; the trace (taken before this) is the evidence.
+                        cyclic = True
+                if cyclic:
+                    break
                 try:
                     loop.run_until_complete(asyncio.gather(*pending, return_exceptions=True))
-                except Deadlock:
+                except (Deadlock, RecursionError):
                     break
         finally:
             asyncio.set_event_loop(None)
